@@ -1114,6 +1114,10 @@ class Tensor:
             _dtype = np.result_type(
                 *(var.data if isinstance(var, Tensor) else var for var in input_vars)
             )
+            if op_kwargs is not None and op_kwargs.get("dtype") is not None:
+                # the computation is carried out in the requested precision:
+                # do not round the scalar to the operands' precision first
+                _dtype = np.result_type(_dtype, op_kwargs["dtype"])
             input_vars = tuple(
                 np.asarray(var, dtype=_dtype) if type(var) in _PY_SCALARS else var
                 for var in input_vars
